@@ -1,6 +1,6 @@
 """C08 - poll: one poll at a time, exact descriptor set, first yield wins, prompt polls."""
 from mc.harness import harness, oracle
-from mc.kit import E, E2, ManualExecutor, snapshot, brief
+from mc.kit import E, E2, FalsyE, ManualExecutor, snapshot, brief
 from mc.sched import EPS
 from more_executors._impl.poll import PollExecutor
 
@@ -30,6 +30,9 @@ def _params():
     for cfn in CFNS:
         for nfut in (2, 3):
             out.append(dict(nfut=nfut, kind="only0", cfn=cfn, canc=True, notify=False, target=1))
+    # the failing delegate fails with a falsy exception object: still "failed", never polled
+    for kind in ("yield1", "raise1", "exc"):
+        out.append(dict(nfut=3, kind=kind, cfn=None, canc=False, notify=False, falsyfail=True))
     return out
 
 
@@ -93,7 +96,7 @@ def body(mc, p):
                 mc.sleep(1.5)        # second delegate completes later (virtual time)
             mc.point()
             if j == 2 and kind != "only0":
-                raise E("delegate2")  # third delegate fails: never polled
+                raise (FalsyE if p.get("falsyfail") else E)("delegate2")  # third delegate fails: never polled
             return "r%d" % j
         return fn
     for j in range(p["nfut"]):
@@ -189,7 +192,8 @@ def check(x):
         if firsts:
             x.require(snap == firsts[0][1], "not-first-yield", detail="future %d is %r, first resolution %r" % (j, snap, firsts[0][1]))
         elif j == 2 and p["kind"] != "only0":
-            x.require(snap == ("err", "E(delegate2)"), "failed-delegate-outcome", detail=repr(snap))
+            x.require(snap == ("err", "%s(delegate2)" % ("FalsyE" if p.get("falsyfail") else "E")), "failed-delegate-outcome",
+                      detail=repr(snap))
         else:
             x.require(snap[0] == "pending", "resolved-without-yield", detail=repr(snap))
     # prompt first sight
